@@ -248,6 +248,17 @@ func mTo(e *jsontext.Encoder, callee, val string) error {
 			return err
 		}
 		return errors.ErrUnsupported
+	case "unsup-open-arr":
+		// declines after having begun a container: the coder was used although the container length is still 0
+		if err := e.WriteToken(jsontext.BeginArray); err != nil {
+			return err
+		}
+		return errors.ErrUnsupported
+	case "unsup-open-obj":
+		if err := e.WriteToken(jsontext.BeginObject); err != nil {
+			return err
+		}
+		return errors.ErrUnsupported
 	case "err-before":
 		return errUser
 	case "err-mid":
@@ -475,6 +486,12 @@ func uFrom(d *jsontext.Decoder, callee string, set *string) error {
 		return errors.ErrUnsupported
 	case "unsup-after":
 		if err := readVal(); err != nil {
+			return err
+		}
+		return errors.ErrUnsupported
+	case "unsup-open":
+		// declines after having read only the first token (the opening one of a composite value)
+		if _, err := d.ReadToken(); err != nil {
 			return err
 		}
 		return errors.ErrUnsupported
